@@ -199,6 +199,8 @@ struct Fixture {
     std::string failure;
     bool fc = false, pops_only = false, pushes_only = false, mixed = false;
     bool named = false;     // hidden variant `imspq_named` (tie A with Algo/MSPQ): imspq_mixed with named lock words
+    bool stale = false;     // hidden variant `imspq_stale`: fixed pre-fill and program of the stale-owner-tag scenario
+                            // (Props/C11MSPQ.lean, `C11_mspq_stale_tag_witness`); run with --replay "0x<k> 1x100000"
     struct PushRec { long v; uint64_t inv, res; bool ok; };
     struct PopRec { long v; uint64_t inv, res; };
     std::vector<PushRec> pushes;       // threads are serialised: plain containers are fine
@@ -231,6 +233,7 @@ struct Fixture {
         else if ( v == "mspq_mixed" ) { intrusive = false; mixed = true; }
         else if ( v == "imspq_mixed" ) { intrusive = true; mixed = true; }
         else if ( v == "imspq_named" ) { intrusive = true; mixed = true; named = true; }
+        else if ( v == "imspq_stale" ) { intrusive = true; mixed = true; named = true; stale = true; }
         else { std::fprintf( stderr, "unknown variant %s\n", v.c_str()); std::exit( 2 ); }
 
         // constructor argument 1..16 (each value once per 24 cases, the small ones 2..8 twice so that
@@ -253,7 +256,18 @@ struct Fixture {
             s.reset( make_ms( intrusive, args[c.index % 8] ));
             cap = s->capacity();
         }
-        if ( pops_only || mixed ) {
+        if ( stale ) {
+            s.reset();
+            s.reset( make_ms( intrusive, 16 ));
+            cap = s->capacity();
+            static long const pre[] = { 100001, 90002, 50003, 80004, 30005, 15006, 50007 };
+            for ( long val : pre ) {
+                s->push( val );
+                prefilled.push_back( val ); pushes.push_back( PushRec{ val, 0, 0, true } );
+            }
+            next_id = 8;
+        }
+        else if ( pops_only || mixed ) {
             // main thread, unscheduled: pre-fill.  Deterministic in (seed, index) because the fixture
             // is built twice per case.
             Rng r( c.seed * 1000003ull + c.index * 7919ull + 99 );
@@ -287,6 +301,14 @@ struct Fixture {
 
     std::vector<std::vector<Op>> program( Rng& r, int nthreads, int nops )
     {
+        if ( stale ) {
+            std::vector<std::vector<Op>> q( 3 );
+            q[0].push_back( Op( "push", 20008 ));
+            q[1].push_back( Op( "push", 10009 ));
+            for ( int i = 0; i < 6; ++i ) q[1].push_back( Op( "pop" ));
+            q[2].push_back( Op( "push", 25010 ));
+            return q;
+        }
         std::vector<std::vector<Op>> p( nthreads );
         std::vector<int> cnt( nthreads );
         int total = 0;
